@@ -235,12 +235,18 @@ class SwitchAlpha(object):
 
 
 class MomSignAlpha(object):
-    def __init__(self, signals, lookback, universe):
+    def __init__(self, signals, lookback, universe, watch=()):
         self.signals, self.lookback, self.universe = signals, lookback, universe
+        self.watch = list(watch)        # every ticker of the listing table, screened whether or not it is a member yet
 
     def __call__(self, dt):
         assets = self.universe.get_assets(dt)
         w = {a: 0.0 for a in assets}
+        for a in self.watch:
+            try:
+                self.signals['momentum'](a, self.lookback)        # a ticker without any observation yet: KeyError, skipped
+            except KeyError:
+                pass
         if self.signals.warmup >= 2:
             for a in assets:
                 try:
@@ -333,6 +339,8 @@ def build(cfg, world, shared=None):
     # the signals may have been created for an inception date before this session's start (members that joined in
     # between are only picked up when the asset lists are next refreshed)
     sig_start = start - pd.Timedelta(days=20) if al.get('early_signals') else start
+    if al.get('late_signals'):
+        sig_start = start + pd.Timedelta(days=6)
     sig_handler = handler
     if al.get('signal_handler') == 'other_adjust' and getattr(world, 'extra', None) is None:
         # the signals read their closes from their own data handler (same files, the other price-adjustment setting)
@@ -352,7 +360,8 @@ def build(cfg, world, shared=None):
     elif al['kind'] == 'mom_sign':
         sigs['momentum'] = MomentumSignal(sig_start, sig_universe, lookbacks=[al['lookback']])
         signals = SignalsCollection(sigs, sig_handler)
-        alpha = MomSignAlpha(signals, al['lookback'], universe)
+        alpha = MomSignAlpha(signals, al['lookback'], universe,
+                             watch=['EQ:' + s_ for s_ in cfg['market']['assets']])
     elif al['kind'] == 'sma_trend':
         sma_cls = SMASignal
         if al.get('custom_class'):
@@ -1184,6 +1193,10 @@ def gen_cfg(rng, alpha_kinds=('fixed',), universe_kinds=('static',), max_days=25
             # ... and one member joined between the signals' inception and the session's start
             a_ = rng.choice(sorted(cfg['universe']['dates']))
             cfg['universe']['dates'][a_] = '%s 00:00:00+00:00' % (d0 - dt.timedelta(days=rng.randint(1, 15))).isoformat()
+    elif ak in ('topn_mom', 'mom_sign', 'sma_trend', 'inv_vol') and cfg['universe']['kind'] == 'static' and rng.random() < 0.2:
+        # the signals were declared for a LATER date than the session's start (a home-made warm-up: the backtest starts a
+        # week early): with a static universe that date selects nothing, every close from the first day on is an observation
+        cfg['alpha']['late_signals'] = True
     if ak in ('topn_mom', 'mom_sign', 'sma_trend', 'inv_vol') and signal_universes and rng.random() < 0.2:
         cfg['alpha']['signal_handler'] = 'other_adjust'
         cfg['market']['ratio'] = {s_: rng.choice([0.5, 0.83, 0.9]) for s_ in syms}
